@@ -643,7 +643,7 @@ impl PtraceDumper {
             let addr = usize::from_ne_bytes(sp.to_vec().as_slice().try_into()?);
             let addr_signed = isize::from_ne_bytes(sp.to_vec().as_slice().try_into()?);
 
-            if addr <= small_int_magnitude as usize && addr_signed >= -small_int_magnitude {
+            if addr_signed <= small_int_magnitude && addr_signed >= -small_int_magnitude {
                 continue;
             }
 
